@@ -1,4 +1,5 @@
 """C10 Binary frames decode to what was encoded under any fragmentation."""
+import collections
 import re
 
 from mirlib import AnchorMissing, edge_label, switch_desc, describe_call, describe_operand, describe_place, describe_rvalue, dom_guards, guards, op_place, _suffix_match
@@ -763,17 +764,76 @@ def run(ctx):
             # walk the decoder from its entry under constant propagation (a size chosen by a flag - `let req = if has_host { MAX } else { MIN }` - and a
             # flag tested twice are then what they are on the path at hand); the state carries the bound in force and the bytes taken under it
             nchk += len(checks)
+            # a size test whose answer is kept before it is acted on (`let short = tag == SYNC && src.remaining() < N; if short {..}`)
+            kept, copies = collections.defaultdict(list), collections.defaultdict(list)
+            for i_, j_, p_, rv_, l_ in b.assigns():
+                if p_[1]:
+                    continue
+                if rv_[0] == "bin" and rv_[1] in ("Lt", "Le", "Gt", "Ge"):
+                    x, y = describe_operand(b, rv_[2]), describe_operand(b, rv_[3])
+                    sz = lambda e: e in ("remaining(src)", "len(src)")
+                    if sz(x) and not sz(y):
+                        kt, kf = {"Lt": (None, lower(y)), "Ge": (lower(y), None), "Le": (None, lower(y) + 1), "Gt": (lower(y) + 1, None)}[rv_[1]]
+                    elif sz(y) and not sz(x):
+                        kt, kf = {"Gt": (None, lower(x)), "Le": (lower(x), None), "Ge": (None, lower(x) + 1), "Lt": (lower(x) + 1, None)}[rv_[1]]
+                    else:
+                        continue
+                    kept[i_].append((p_[0], (kt, kf)))
+                elif rv_[0] == "use" and rv_[1][0] in ("c", "m") and not rv_[1][1][1]:
+                    copies[i_].append((p_[0], rv_[1][1][0]))
+            # what decides a branch: the tested locals and everything their values are computed from (two states that agree on those go the same ways)
+            rel = set()
+            for sb in range(b.n):
+                t0 = b.term(sb)
+                if t0["k"] == "switch" and op_place(t0["discr"]) is not None:
+                    rel.add(op_place(t0["discr"])[0])
+            for v_ in checks.values():
+                if v_ and v_[2] is not None:
+                    rel.add(v_[2])
+            grew = True
+            all_assigns = list(b.assigns())
+            while grew:
+                grew = False
+                for i_, j_, p_, rv_, l_ in all_assigns:
+                    if p_[0] not in rel:
+                        continue
+                    ops = [rv_[1]] if rv_[0] == "use" else list(rv_[2]) if rv_[0] == "agg" else [rv_[2], rv_[3]] if rv_[0] == "bin" else [rv_[2]] if rv_[0] in ("un", "cast") else [["c", rv_[1]]] if rv_[0] == "disc" else [["c", rv_[2]]] if rv_[0] == "ref" else []
+                    for o in ops:
+                        if isinstance(o, list) and o and o[0] in ("c", "m") and o[1][0] not in rel:
+                            rel.add(o[1][0])
+                            grew = True
+            proj = lambda e: frozenset(x for x in e if x[0][0] in rel or x[0][0] == "K")
             worst = {}
             seen_ = set()
-            work = [(0, frozenset(), None, None, 0)]
-            budget = 60000
+            work = [(0, frozenset(), None, None, 0, frozenset())]
+            budget = 600000
             while work and budget > 0:
                 budget -= 1
-                blk, env, chk, k, used = work.pop()
-                key_ = (blk, env, chk, k, used)
+                blk, env, chk, k, used, pend = work.pop()
+                key_ = (blk, proj(env), chk, k, used, pend)
                 if key_ in seen_:
                     continue
                 seen_.add(key_)
+                if blk in kept or (pend and blk in copies):
+                    pd = dict(pend)
+                    for loc_, kk_ in kept.get(blk, ()):
+                        pd[loc_] = kk_
+                    for dst_, src_ in copies.get(blk, ()):
+                        if src_ in pd:
+                            pd[dst_] = pd[src_]
+                    pend = frozenset(pd.items())
+                t_ = b.term(blk)
+                if blk not in checks and pend and t_["k"] == "switch" and op_place(t_["discr"]) is not None and not op_place(t_["discr"])[1] \
+                        and op_place(t_["discr"])[0] in dict(pend) and len(t_["arms"]) == 1 and int(t_["arms"][0][0]) == 0:
+                    kt, kf = dict(pend)[op_place(t_["discr"])[0]]
+                    for s_, e_ in b.cp_successors(blk, env):
+                        kv = kf if s_ == t_["arms"][0][1] else kt
+                        if kv is None:
+                            work.append((s_, e_, None, None, 0, frozenset()))
+                        else:
+                            work.append((s_, e_, blk, kv, 0, frozenset()))
+                            checks.setdefault(blk, None)
+                    continue
                 if blk in unknown:
                     chk, k, used = None, None, 0
                 if blk in take and k is not None:
@@ -783,13 +843,13 @@ def run(ctx):
                             worst[chk] = (used, take[blk][1], k)
                         chk, k, used = None, None, 0
                 for s_, e_ in b.cp_successors(blk, env):
-                    if blk not in checks:
-                        work.append((s_, e_, chk, k, used))
+                    if not checks.get(blk):
+                        work.append((s_, e_, chk, k, used, pend))
                         continue
                     edge, kk, other, plus = checks[blk]
                     if s_ != edge:
                         # the way on which the test says "not enough": nothing is established
-                        work.append((s_, e_, None, None, 0))
+                        work.append((s_, e_, None, None, 0, pend))
                         continue
                     kv = kk
                     if other is not None:
@@ -798,10 +858,10 @@ def run(ctx):
                             kv = max(kv, v_ + (1 if plus else 0))
                     if k is not None and used == 0 and k > kv:
                         # a weaker test behind a stronger one, nothing taken in between, takes nothing back
-                        work.append((s_, e_, chk, k, used))
+                        work.append((s_, e_, chk, k, used, pend))
                     else:
                         # (a further test refers to what is left now: the count starts again)
-                        work.append((s_, e_, blk, kv, 0))
+                        work.append((s_, e_, blk, kv, 0, pend))
             for sb in sorted(checks):
                 w = worst.get(sb)
                 r.check(w is None, "%s/check@%d/reads-within-the-checked-size" % (tag, b.term(sb).get("line") or 0), b.loc(b.term(sb).get("line")),
